@@ -27,11 +27,19 @@ Three layers (DESIGN.md, C17), every case is ONE point of a finite tree:
               (xpos, xipos, xmat, cinert, cvel, site_xpos, tendons, qfrc_actuator) at
               (1e-3 + 20 x sens) * max(1, |ref|), qfrc_constraint at 5e-2 of its largest entry, and the
               control interval; sens = how far the reference's own result moves under a 1e-6
-              perturbation of the start state (starts with sens > 1e-2 are skipped and counted).
+              perturbation of the start state.  Skipped and counted: starts with sens > 1e-2, and
+              impacts = steps during which the reference's set of active constraints (contacts, joint
+              limits) changes AND whose result moves by > 3e-4 when the reference's physics step is
+              halved (MJX and MuJoCo-C legitimately diverge by 0.1 and more in joint velocities there,
+              e.g. when an Ant leg hits its joint limit or the Ant lands; measured: on all other steps
+              they agree to < 2e-4).
 
 Signatures: C17/mujoco/<Env>/<layer>/<quantity>/<class>.  The class of a mismatch is found by
 re-judging lerax's functions on *completed* states (pre-state with the reference's forward
-kinematics, post-state with cfrc_ext filled in): it names the cause, it never decides pass / fail.
+kinematics, post-state with cfrc_ext filled in): for a mismatch of the plain evaluation it only names
+the cause.  In addition lerax's functions must agree with the reference on the state with contact
+forces supplied (class `with-contact-forces-supplied`), so that contact-force semantics (clips,
+weights) are compared although lerax itself never computes cfrc_ext.
 """
 
 from __future__ import annotations
@@ -286,6 +294,34 @@ class Ref:
             raise HarnessError("gymnasium step() did not call do_simulation exactly once")
         info = {k: np.array(v, dtype=np.float64) for k, v in info.items()}  # copies: some entries are live views of MjData
         return np.array(obs, dtype=np.float64), float(r), bool(term), bool(trunc), info
+
+    def conditioning(self, qpos, qvel, action):
+        """(does the set of active constraints change during the control step?, how far does the result move when the
+        physics step is halved?) - computed on copies / replays of the reference, used only to decide skipping."""
+        import copy
+
+        mj, g = self.mujoco, self.g
+        if not hasattr(self, "_half"):
+            mh = copy.copy(g.model)
+            mh.opt.timestep = g.model.opt.timestep / 2
+            self._half = (mh, mj.MjData(mh))
+        self.reset_to(qpos, qvel)
+        d = g.data
+        d.ctrl[:] = np.asarray(action, dtype=np.float64)
+        active = lambda: tuple(zip(d.efc_type[: d.nefc].tolist(), d.efc_id[: d.nefc].tolist()))
+        sets = {active()}
+        for _ in range(g.frame_skip):
+            mj.mj_step(g.model, d)
+            sets.add(active())
+        q1, v1 = np.array(d.qpos), np.array(d.qvel)
+        mh, dh = self._half
+        mj.mj_resetData(mh, dh)
+        dh.qpos[:] = qpos
+        dh.qvel[:] = qvel
+        dh.ctrl[:] = np.asarray(action, dtype=np.float64)
+        mj.mj_step(mh, dh, nstep=2 * g.frame_skip)
+        rel = lambda x, y: float(np.max(np.abs(x - y) / np.maximum(1.0, np.abs(y))))
+        return len(sets) > 1, max(rel(dh.qpos, q1), rel(dh.qvel, v1))
 
     def real_step(self, action):
         g = self.g
@@ -551,7 +587,7 @@ def _judge_semantic(ctx, name, rf, c, i, v0, v1, v2, ref, cfrc, post):
     comp_bad = False
     for lk, gk, sign in _info_items(name, v0["info"]):
         if gk not in info_ref:
-            ctx.outcome(f"mujoco:info-only-in-lerax:{name}", lk)
+            ctx.outcome(f"mujoco:info-only-in-lerax:{name}:{lk}", 1)
             continue
         # pure action costs are judged relatively (their weights are as small as 1e-4); reward terms like the reward itself; the rest at max(1, |ref|)
         fl, ab = (0.0, 1e-7) if gk in ACTION_COST_KEYS else (rfloor, 2e-5) if gk in REWARD_TERM_KEYS else (1.0, 0.0)
@@ -559,7 +595,7 @@ def _judge_semantic(ctx, name, rf, c, i, v0, v1, v2, ref, cfrc, post):
         comp_bad = comp_bad or bad
     for gk in info_ref:
         if gk not in {g for _, g, _ in _info_items(name, v0["info"])}:
-            ctx.outcome(f"mujoco:info-only-in-reference:{name}", gk)
+            ctx.outcome(f"mujoco:info-only-in-reference:{name}:{gk}", 1)
     # reward: reported on its own only when no info entry already explains it
     n_before = len(out)
     if report("reward", lambda v: np.asarray(v["reward"]), r_ref, "reward", rfloor, 2e-5) and comp_bad:
@@ -597,6 +633,8 @@ def clause_transition(cases, ctx: Ctx):
             a = acts[c["a"]]
             q0, v0 = np.asarray(pre.sim_state.qpos, dtype=np.float64), np.asarray(pre.sim_state.qvel, dtype=np.float64)
             rf.reset_to(q0, v0)
+            changed, disc = rf.conditioning(q0, v0, a)  # harness-side analysis of the reference only (decides skipping, never a verdict)
+            rf.reset_to(q0, v0)
             q_ref, v_ref = rf.real_step(a)
             pert = 1e-6 * np.where(np.arange(len(q0)) % 2 == 0, 1.0, -1.0)
             rf.reset_to(q0 + pert, v0)
@@ -606,6 +644,11 @@ def clause_transition(cases, ctx: Ctx):
             tol = 1e-3 + 20.0 * sens  # the reference's own conditioning widens the tolerance, deterministically
             if not (sens <= 1e-2):
                 ctx.outcome(f"mujoco:transition-skipped-ill-conditioned:{name}", k)
+                continue
+            if changed and disc > 3e-4:
+                # a constraint (contact, joint limit) switches on or off inside this control step AND the reference's own result
+                # depends on its step size there: an impact.  MJX and MuJoCo-C legitimately diverge on such steps.
+                ctx.outcome(f"mujoco:transition-skipped-impact:{name}", k)
                 continue
             ctx.outcome(f"mujoco:transition:{name}", k)
             if os.environ.get("VERIF_C17_DEBUG"):
@@ -791,7 +834,11 @@ def explore_mujoco(ctx: Ctx):
             ctx.guard(cat, len(vals))
     req = []
     for name in envs:
-        req += [f"mujoco:reset:{name}", f"mujoco:semantic:{name}", f"mujoco:first-step:{name}", f"mujoco:transition:{name}"]
+        att = sum(len(v) for cat, v in ctx.outcomes.items() if cat in (f"mujoco:transition:{name}", f"mujoco:transition-skipped-impact:{name}", f"mujoco:transition-skipped-ill-conditioned:{name}"))
+        ctx.guard(f"mujoco:transition-attempted:{name}", att)
+        # HumanoidStandup lies on the ground: nearly every control step changes its contact set, so only "attempted" is demanded there
+        req += [f"mujoco:reset:{name}", f"mujoco:semantic:{name}", f"mujoco:first-step:{name}",
+                f"mujoco:transition-attempted:{name}" if name == "HumanoidStandup" else f"mujoco:transition:{name}"]
     for name in envs:
         if name in CONTACT_ENVS:
             req.append(f"mujoco:in-contact:{name}")
@@ -820,7 +867,8 @@ def explore_mujoco(ctx: Ctx):
         "mujoco: before a step the reference holds what gymnasium would hold: its own mj_forward of qpos/qvel after a reset, lerax's post-step arrays (kinematics lagging one physics step, as in mj_step) afterwards",
         "mujoco: poked states overwrite one coordinate of the post-step arrays identically on both sides; they straddle thresholds at +-1e-3, +-1e-2 and hit a threshold exactly only when it is float32-representable",
         "mujoco: info entries are compared when both sides report them (InvertedDoublePendulum: alive_bonus/dist_penalty/vel_penalty vs reward_survive/-distance_penalty/-velocity_penalty; names and sign convention are not pinned); entries only one side reports are listed in the evidence, not judged",
-        "mujoco: full step-vs-step comparison (transition layer) only from reset and depth-1 states at 1e-3 relative on qpos/qvel; MJX and MuJoCo-C legitimately diverge once contacts form, so deeper physics is not compared; starts where the reference moves > 1e-2 under a 1e-6 perturbation are skipped and counted",
+        "mujoco: full step-vs-step comparison (transition layer) only from reset and depth-1 states at (1e-3 + 20 x the reference's own movement under a 1e-6 perturbation) relative, on qpos/qvel and the derived arrays; MJX and MuJoCo-C legitimately diverge when contacts form, so impacts (the reference's active-constraint set changes inside the control step and its result moves > 3e-4 when its physics step is halved) and starts with sensitivity > 1e-2 are skipped and counted (HumanoidStandup: nearly every step changes the contact set, only a handful of its steps are judged in this layer); deeper physics is not compared",
+        "mujoco: semantic tolerances: 1e-4 * max(1, |ref|) for observations and info entries; reward and reward terms 1e-4 * max(min(1, sum of |reference reward terms|), |ref|) + 2e-5; pure action costs 1e-4 relative",
         "mujoco: only in-range actions; reset distributions of the MuJoCo environments are not compared (the statement asks for equal observation/reward/termination from the same state)",
         f"mujoco: decided on the key alphabet K of {nk} integers and action trees of depth {depth}; float32 (MJX) vs float64 (reference) at 1e-4 relative",
     ]
